@@ -106,6 +106,14 @@ class Check:
         if not cond:
             raise AnalysisError(msg)
 
+    def defer_error(self, msg: str) -> None:
+        """An analysis error that must not hide violations found by other rules: reported at the end, and it
+        decides the exit code (2) only if nothing was violated."""
+        if not hasattr(self, "deferred"):
+            self.deferred: list[str] = []
+        if msg not in self.deferred:
+            self.deferred.append(msg)
+
     def floor(self, unit: str, minimum: int) -> None:
         got = self.units.get(unit, 0)
         if got < minimum:
@@ -165,6 +173,11 @@ def finish(check: Check) -> int:
             for k, v in f.detail.items():
                 print(f"      {k}: {v}")
             print(f"VIOLATION property={check.prop} replay={path}")
+
+    for msg in getattr(check, "deferred", []):
+        print(f"ANALYSIS-ERROR: {msg}")
+    if getattr(check, "deferred", []) and rc == 0:
+        rc = 2
 
     wall = time.time() - check.t0
     seed = int(os.environ.get("VERIF_SEED", "0") or 0)
